@@ -380,6 +380,18 @@ def dump_runs(runs):
     return res
 
 
+def scan_boundaries(upto=20000):
+    """the runs in 1..=upto at which the implementation's calibration (every wire, every 13th pad) changes"""
+    exe, out = vlib.build_harness("phys")
+    if exe is None:
+        raise gen.GenError("phys harness does not build against /repo: " + out[-600:])
+    rc, out = vlib.sh([exe, "obs"], stdin=("calib-scan %d\n" % upto).encode(), timeout=900)
+    line = out.split("\n")[0]
+    if rc != 0 or not line.startswith("boundaries"):
+        raise gen.GenError("calib-scan failed: %r" % out[:300])
+    return [int(x) for x in line.split()[1:]]
+
+
 def arm_points(*arm_lists):
     pts = {U32_MAX, 0}
     for arms in arm_lists:
@@ -519,6 +531,9 @@ def generate():
         for F in fams.values():
             for q in F:
                 runs.update(dx.candidate_runs(F[q]["src"]))
+        # ... and every run up to 20000 at which the implementation's answer changes, found by scanning it
+        for b in scan_boundaries():
+            runs.update((b - 1, b, b + 1))
     runs = sorted(runs)
     dumps = dump_runs(runs)
     wkeys = list(range(N_WIRES))
@@ -531,7 +546,7 @@ def generate():
             notes.append("%s\n(* calibration/%s: the front end could not read the dispatch of %s.\n"
                          "   The implementation (verif hooks, all %d entries of the family) was evaluated at %d candidate run numbers\n"
                          "   (every integer literal and integer constant of the calibration sources, each +-1, and 0, 1, u32::MAX-1,\n"
-                         "   u32::MAX); at each one the parsed tables / the delay that reproduce the implementation's COMPLETE answer\n"
+                         "   u32::MAX; every run in 1..=20000 at which a scan of the implementation finds a change, +-1); at each one the parsed tables / the delay that reproduce the implementation's COMPLETE answer\n"
                          "   were identified.  ASSUMPTION: the dispatch is constant between consecutive candidates with the same answer\n"
                          "   (a change between two candidates is located by bisection); the differential run (arm boundaries +-2 and\n"
                          "   a stride of runs) checks it.  A calibration triple needs baseline, gain and\n"
